@@ -900,12 +900,19 @@ func c17Geomean(c *Ctx, p *Prog) {
 	unitsF := p.Field("benchstat", "Collection", "Units")
 	if am := p.Method("benchstat", "Collection", "addMetrics"); am != nil {
 		direct := 0
-		for _, f := range []*types.Var{cfgF, grpF, unitsF} {
-			direct += len(storesToField(am, f))
-		}
-		// the helper: a closure that returns early when the string is already present
+		// the helper: a closure — or a function of the package called here — that returns early when the string is
+		// already present
 		helperOK := false
-		for _, a := range am.AnonFuncs {
+		okHelpers := map[*ssa.Function]bool{}
+		cands := append([]*ssa.Function{}, am.AnonFuncs...)
+		eachInstr(am, func(_ *ssa.BasicBlock, in ssa.Instruction) {
+			if call, ok := in.(*ssa.Call); ok {
+				if h := call.Call.StaticCallee(); h != nil && h.Pkg == am.Pkg && h.Blocks != nil && h.Parent() == nil && h != am {
+					cands = append(cands, h)
+				}
+			}
+		})
+		for _, a := range cands {
 			earlyReturn := false
 			appends := false
 			eachInstr(a, func(b *ssa.BasicBlock, in ssa.Instruction) {
@@ -950,6 +957,16 @@ func c17Geomean(c *Ctx, p *Prog) {
 			})
 			if earlyReturn && appends {
 				helperOK = true
+				okHelpers[a] = true
+			}
+		}
+		// a list assigned the helper's result (c.Configs = appendUnique(c.Configs, cfg)) grows through the helper
+		for _, f := range []*types.Var{cfgF, grpF, unitsF} {
+			for _, st := range storesToField(am, f) {
+				if call, ok := st.Val.(*ssa.Call); ok && okHelpers[call.Call.StaticCallee()] {
+					continue
+				}
+				direct++
 			}
 		}
 		c.Check(direct == 0 && helperOK, R, "addMetrics:append-if-absent", p.pos(am.Pos()), "lists grow only through the append-if-absent helper", fmt.Sprintf("configs/groups/units are appended directly (%d direct stores) or the helper no longer skips present entries: rows or tables would repeat", direct))
